@@ -330,6 +330,25 @@ def run_check(mod: Any, tier: str, base_seed: int, runs: int | None = None, proc
         if again["digest"] != r["digest"]:
             harness_errors.append(f"non-deterministic run: seed {r['seed']} digest {r['digest']} vs {again['digest']}")
 
+    # determinism across interpreters: a fresh process under a different PYTHONHASHSEED must reproduce the digests
+    n_cross = 6 if tier == "quick" else 48
+    if results and not harness_errors:
+        env = dict(os.environ)
+        env["PYTHONHASHSEED"] = "7"
+        env["VERIF_KEEP_HASHSEED"] = "1"
+        try:
+            p = subprocess.run([sys.executable, "-m", "dst.harness", "--module", mod.__name__, "--digests", str(n_cross), "--seed",
+                                str(base_seed), "--tier", tier], cwd=VERIF, env=env, capture_output=True, text=True, timeout=900)
+            want = {r["seed"]: r["digest"] for r in results}
+            for ln in p.stdout.splitlines():
+                if ln.startswith("DIGEST "):
+                    _, sd, dg = ln.split()[:3]
+                    det_checked += 1
+                    if int(sd) in want and want[int(sd)] != dg:
+                        harness_errors.append(f"non-deterministic across interpreters / hash seeds: seed {sd} digest {want[int(sd)]} vs {dg}")
+        except Exception as exc:  # noqa: BLE001
+            harness_errors.append(f"cross-interpreter determinism check failed to run: {type(exc).__name__}: {exc}")
+
     # ---- violations
     known = load_known()
     by_sig: dict[str, dict[str, Any]] = {}
@@ -426,6 +445,7 @@ def run_check(mod: Any, tier: str, base_seed: int, runs: int | None = None, proc
             "scheduler": dict(stats),
             "distinct_digests": len({r["digest"] for r in results}),
             "determinism_rechecked_runs": det_checked,
+            "seed_range": [seeds[0], seeds[-1]] if seeds else [],
             "components": getattr(mod, "COMPONENTS", {}),
             "known_findings_hit": known_hit,
             "violation_signatures": {s: c for s, c in sig_counts.items()},
@@ -494,9 +514,10 @@ def main(argv: list[str] | None = None) -> int:
     ap.add_argument("--replay")
     ap.add_argument("--one", type=int, help="run one seed verbosely")
     ap.add_argument("--quiet", action="store_true")
+    ap.add_argument("--digests", type=int, help="(self-test) print 'seed digest' for the first N seeds of the batch and exit")
     ap.add_argument("--emit-known", action="store_true", help="(maintenance) rewrite the committed replay files of known findings")
     a = ap.parse_args(argv)
-    if os.environ.get("PYTHONHASHSEED") != "0":
+    if os.environ.get("PYTHONHASHSEED") != "0" and not os.environ.get("VERIF_KEEP_HASHSEED"):
         env = dict(os.environ)
         env["PYTHONHASHSEED"] = "0"
         os.execve(sys.executable, [sys.executable, "-m", "dst.harness"] + (argv if argv is not None else sys.argv[1:]), env)
@@ -504,6 +525,12 @@ def main(argv: list[str] | None = None) -> int:
     mod = importlib.import_module(a.module)
     if a.replay:
         return replay_file(mod, a.replay, a.quiet)
+    if a.digests:
+        for i in range(a.digests):
+            sd = a.seed * 1_000_003 + i
+            r = run_once(mod, seed=sd, params={"tier": a.tier})
+            print(f"DIGEST {sd} {r['digest']} {r['error'] or ''}".rstrip())
+        return 0
     if a.one is not None:
         r = run_once(mod, seed=a.one, params={"tier": a.tier})
         print(json.dumps({k: r[k] for k in ("seed", "digest", "violations", "foreign", "faults", "probes", "stats", "sample",
